@@ -13,6 +13,7 @@ import (
 func init() {
 	for _, e := range [][2]string{
 		{"cmd/compile.emitCallExpression#reads-fields:node.CallExpression.Fun", "Fun is the resolved callee, a runtime reference that cannot be serialised; the handler emits NewCallTodo so that the call is resolved again by name at run time (documented in cmd/compile/doc.go)"},
+		{"cmd/compile.emitClassStatement#reads-fields:node.ClassStatement.Construct", "NewClassStatement, which the handler calls, re-derives Construct from the method map (class.GetMethod(\"__construct\"))"},
 		{"cmd/compile.emitFunctionStatement#reads-fields:node.FunctionStatement.FuncStmt", "embedded interface that the parser leaves nil"},
 		{"cmd/compile.emitFunctionStatement#reads-fields:node.FunctionStatement.IsGenerator", "recomputed from the body by NewFunctionStatement (containsYield), which the handler calls"},
 		{"cmd/compile.emitFunctionStatement#reads-fields:node.FunctionStatement.defineCtx", "run-time state: set by SetDefineCtx when a closure is created, nil after parsing"},
@@ -106,7 +107,11 @@ func c16Run(r *Run) {
 		entries = append(entries, entry{nt, hd, kv.Pos()})
 	}
 	// paramReads: fields of the first node-typed parameter read by helper functions (one level)
+	var readsOfDepth func(fd *ast.FuncDecl, obj types.Object, depth int) (map[string]bool, bool)
 	readsOf := func(fd *ast.FuncDecl, obj types.Object) (map[string]bool, bool) {
+		return readsOfDepth(fd, obj, 0)
+	}
+	readsOfDepth = func(fd *ast.FuncDecl, obj types.Object, depth int) (map[string]bool, bool) {
 		reads := map[string]bool{}
 		whole := false
 		ast.Inspect(fd.Body, func(n ast.Node) bool {
@@ -166,6 +171,36 @@ func c16Run(r *Run) {
 						if se, ok := ast.Unparen(x.Fun).(*ast.SelectorExpr); ok {
 							if pid, ok := ast.Unparen(se.X).(*ast.Ident); ok && pid.Name == "reflect" {
 								continue // reflect.ValueOf(n): only FieldByName reads count
+							}
+						}
+						// a helper of this package: look at what it reads of the node (bounded depth);
+						// anything else that receives the node counts as reading all of it
+						if callee := declOf[calleeOf(info, x)]; callee != nil && depth < 3 {
+							var pobj types.Object
+							ai := 0
+							for ai2, a2 := range x.Args {
+								if a2 == a {
+									ai = ai2
+								}
+							}
+							k := 0
+							for _, f := range callee.Type.Params.List {
+								for _, nm := range f.Names {
+									if k == ai {
+										pobj = info.Defs[nm]
+									}
+									k++
+								}
+							}
+							if pobj != nil {
+								sub, subWhole := readsOfDepth(callee, pobj, depth+1)
+								for fld := range sub {
+									reads[fld] = true
+								}
+								if subWhole {
+									whole = true
+								}
+								continue
 							}
 						}
 						whole = true
